@@ -175,14 +175,17 @@ def build_program(rs):
             CTX.snap_attrs.append((n, attr))
         for attr, value in c.get("shadow", {}).items():
             ns[attr] = value  # a plain class attribute that hides a marker of the base class
-        plain = c.get("plain", {})
+        plain = dict(c.get("plain", {}))
+        for attr in plain:
+            CTX.snap_attrs.append((n, attr))
+        # a constructor may also assign attributes that carry a will_reset_to marker (e.g. "self.r0 = 5"):
+        # the marker still decides - the attribute starts at the declared default and is reset every iteration
+        plain.update(c.get("init_marked", {}))
         if plain:
-            def __init__(self, _p=dict(plain)):
+            def __init__(self, _p=plain):
                 for k, v in _p.items():
                     setattr(self, k, v)
             ns["__init__"] = __init__
-            for attr in plain:
-                CTX.snap_attrs.append((n, attr))
         for fb in c.get("fbs", []):
             ns[fb["m"]] = _make_feedback(n, fb)
         bases = (object,)
@@ -567,6 +570,8 @@ def decode_fb(code, used):
     fb = {"m": m, "key": [None, None, "explicit key"][key_c], "hint": HINTS[hint_c]}
     if fb["key"] and name_c % 2:
         fb["key"] = f"k{name_c}"
+    elif fb["key"] and name_c == 2:
+        fb["key"] = "get_raw"  # an explicit key is used as it is, whatever it looks like
     fb["vals"] = [fb_value(fb["hint"], v) for v in vals]
     if fb["hint"] in ("seq_int", "list_float", "seq_rot") and vals[0] % 2:
         fb["inplace"] = True
@@ -589,6 +594,8 @@ def decode_robot(code):
             c["sm"] = True  # this component is a magicbot StateMachine
         c["resets"] = {(f"_r{j}" if (rv + j) % 3 == 0 else f"r{j}"): RESET_VALUES[(rv + j) % 5] for j in range(nres)}  # markers may be private names too
         c["base_resets"] = {f"b{j}": RESET_VALUES[(rv + 2 + j) % 5] for j in range(nbres)}
+        if nres and (rv + flags) % 3 == 0:
+            c["init_marked"] = {sorted(c["resets"])[0]: 12345}  # the constructor assigns a marked attribute as well
         if nbres and rv == 3:
             c["resets"]["b0"] = RESET_VALUES[(rv + 3) % 5]  # the derived class declares the inherited marker again
         elif nbres and rv == 4:
